@@ -189,6 +189,12 @@ int main(int argc, char **argv)
         // incremental use: every further file is read after the previous solve() and the problem is solved again
         for (int k = 2; ok && k < argc; ++k)
         {
+            if (std::string(argv[k]) == "-pop")
+            { // as the deliberative executor does before adding requirements: back to root level
+                while (!s.root_level())
+                    s.get_sat_core().pop();
+                continue;
+            }
             std::ifstream in_k(argv[k]);
             std::stringstream buf_k;
             buf_k << in_k.rdbuf();
